@@ -25,6 +25,12 @@ func register(id, level string, run func(*evid.Run), replay func(json.RawMessage
 
 // engineChecks run real dragonboat engines: a panic in one of its goroutines kills the process, so
 // they run in a child process and the parent turns "child died" into an observation.
+// rerun: (property/kind) pairs without a single-case replay.
+var rerun = map[string]bool{
+	"C05/tableset": true, "C08/stmt-overlap": true, "C09/api": true, "C13/conformance": true,
+	"C14/engine-sequence": true, "C14/odd-names": true, "C17/tls": true, "C17/tlsbin": true, "C18/pool": true,
+}
+
 var engineChecks = map[string]bool{"C05": true, "C07": true, "C14": true, "C16": true, "C17": true}
 
 func supervise(id, level string) int {
@@ -139,6 +145,20 @@ func main() {
 		c, ok := checks[art.Property]
 		if !ok || c.replay == nil {
 			fmt.Fprintf(os.Stderr, "no replay for %s\n", art.Property)
+			os.Exit(2)
+		}
+		// cases whose kind has no single-case replay: say so instead of pretending
+		var probe struct {
+			Kind   string `json:"kind"`
+			Reader string `json:"reader"`
+		}
+		_ = json.Unmarshal(art.Case, &probe)
+		kind := probe.Kind
+		if kind == "" && probe.Reader != "" {
+			kind = "stmt-overlap"
+		}
+		if rerun[art.Property+"/"+kind] {
+			fmt.Printf("cases of kind %q of %s have no single-case replay: the enumeration is deterministic, re-run scripts/check.sh %s quick (the artefact names the case: %s)\n", kind, art.Property, art.Property, string(art.Case))
 			os.Exit(2)
 		}
 		out, pass := c.replay(art.Case)
